@@ -401,6 +401,16 @@ func c10Cells(seed int64, thorough bool, race bool) []c10Cell {
 			}
 		}
 	}
+	// widths around the sizes a span-wise implementation might use (multiples of 64 .. 1024 and
+	// their neighbours), three rows high
+	if !race {
+		for _, dk := range c10DstKinds {
+			for wi, w := range []int{63, 64, 65, 127, 128, 129, 255, 256, 257, 511, 512, 513, 768, 1023, 1024, 1025} {
+				sk := []string{"NRGBA", "RGBA64", "RGBA", "YCbCr444", "NRGBA64", "Gray16"}[(wi+len(dk))%6]
+				cells = append(cells, c10Cell{Src: sk, Dst: dk, W: w, H: 3, OX: 0, OY: 1, DstMode: []string{"same", "sub"}[wi%2], Par: 1 + wi%3, Fn: fns[(wi+fi)%len(fns)], Seed: rng.U64()})
+			}
+		}
+	}
 	if thorough && !race {
 		// seeded random geometries and a large image per (src,dst)
 		for _, sk := range c10SrcKinds {
@@ -434,6 +444,17 @@ func runC10(r *core.Run) {
 		return
 	}
 	cells := c10Cells(r.Seed, r.Thorough(), false)
+	if strings.HasPrefix(r.Variant, "plain") {
+		// a child that exists for its environment (GOMAXPROCS = 1, 2: "no parallelism available" is a
+		// case an implementation may special-case): every fifth cell with parallelism above 1
+		var sub []c10Cell
+		for i, c := range cells {
+			if c.Par > 1 && i%5 == 0 && c.W*c.H < 5000 {
+				sub = append(sub, c)
+			}
+		}
+		cells = sub
+	}
 	paths := map[string]int64{}
 	for _, c := range cells {
 		paths[c10PathClass(c)]++
@@ -449,6 +470,9 @@ func runC10(r *core.Run) {
 			r.Violate("cell", fmt.Sprintf("%s<-%s/%s/%s", c.Dst, c.Src, c.DstMode, c10PathClass(c)), msg, c)
 		}
 	})
+	if strings.HasPrefix(r.Variant, "plain") {
+		return
+	}
 	// caller-defined image types: a value type whose struct holds a slice (not comparable with ==),
 	// as source, as destination, and as both at once (in place)
 	{
@@ -575,7 +599,7 @@ func runC10(r *core.Run) {
 		}
 	}
 	if r.Variant == "" {
-		vs := []string{"burst@4", "burst+stagger@8", "burst+rev@16", "burst+rev+stagger@2"}
+		vs := []string{"burst@4", "burst+stagger@8", "burst+rev@16", "burst+rev+stagger@2", "plain@1", "plain@2"}
 		for _, v := range vs {
 			r.RunVariantChild(v, 5*time.Minute, false)
 		}
@@ -710,7 +734,7 @@ func c10ParseChild(r *core.Run, out []byte) int64 {
 }
 
 func childC10(args []string) int {
-	if len(args) > 0 && isBurst(args[0]) {
+	if len(args) > 0 && (isBurst(args[0]) || strings.HasPrefix(args[0], "plain")) {
 		return variantChild("C10", "exploration", runC10)(args)
 	}
 	thorough := len(args) > 0 && args[0] == "thorough"
